@@ -64,21 +64,6 @@ def run(ctx, chk):
     chk.analysed.update({"traversal_methods": n, "assemble_impls": na + 1})
 
 
-def header_words(f):
-    from ..tree import walk, path_of
-    res = f["sig"]["params"][1][0]
-    out = None
-    for n in walk(f["body"]):
-        if n[0] == "mcall" and path_of(n[1]) == res and n[2] == "extend" and len(n[3]) == 1 and n[3][0][0] in ("array", "vec"):
-            out = []
-            for e in n[3][0][1]:
-                if e[0] == "field" and path_of(e[1]) == "self":
-                    out.append(e[2])
-                else:
-                    out.append("?")
-    return out
-
-
 def diffseq(got, want):
     missing = [p for p in want if p not in got]
     extra = [p for p in got if p not in want]
